@@ -120,26 +120,30 @@ def __init__(self, directory=None, shards=8, timeout=0.010, disk=Disk, **setting
     directory = op.expandvars(directory)
 
     default_size_limit = DEFAULT_SETTINGS['size_limit']
+    given = 'size_limit' in settings
     size_limit = settings.pop('size_limit', default_size_limit) / shards
+
+    def shard(num):
+        path = op.join(directory, __Hfmt__ % num)
+        limit = {}
+        if given or not op.exists(op.join(path, DBNAME)):
+            limit['size_limit'] = size_limit
+        return Cache(
+            directory=path, timeout=timeout, disk=disk, **limit, **settings
+        )
 
     self._count = shards
     self._directory = directory
     self._disk = disk
-    self._shards = tuple(
-        Cache(
-            directory=op.join(directory, __Hfmt__ % num),
-            timeout=timeout,
-            disk=disk,
-            size_limit=size_limit,
-            **settings,
-        )
-        for num in range(shards)
-    )
+    self._shards = tuple(shard(num) for num in range(shards))
     self._hash = self._shards[0].disk.hash
     self._caches = {}
     self._deques = {}
     self._indexes = {}
 '''
+
+# the database file of a Cache: what FanoutCache.__init__ tests for existence is the file a shard's Cache opens
+T_CON_CONNECT = 'sqlite3.connect(op.join(self._directory, DBNAME), timeout=self._timeout, isolation_level=None)'
 
 T_FILENAME = '''
 def filename(self, key=UNKNOWN, value=UNKNOWN):
@@ -203,6 +207,29 @@ def module_assign(tree, name, fname):
         if isinstance(n, ast.Assign) and len(n.targets) == 1 and isinstance(n.targets[0], ast.Name) and n.targets[0].id == name:
             return n.value
     raise TranslateError('%s: module constant %s not found' % (fname, name))
+
+
+def imported_from_core(tree, name, fname):
+    """`name` at module level of fanout.py is `from .core import name` and nothing else binds it there."""
+    hits = 0
+    for n in tree.body:
+        if isinstance(n, ast.ImportFrom):
+            for a in n.names:
+                if (a.asname or a.name) == name:
+                    if not (n.module == 'core' and n.level == 1 and a.asname is None):
+                        err(n, '%s is not imported from .core' % name, fname)
+                    hits += 1
+        elif isinstance(n, ast.Import):
+            for a in n.names:
+                if (a.asname or a.name).split('.')[0] == name:
+                    err(n, '%s is rebound by an import' % name, fname)
+        elif isinstance(n, (ast.Assign, ast.AugAssign, ast.AnnAssign, ast.FunctionDef, ast.ClassDef)):
+            targets = n.targets if isinstance(n, ast.Assign) else [getattr(n, 'target', None)]
+            names = {t.id for t in targets if isinstance(t, ast.Name)} | ({n.name} if hasattr(n, 'name') else set())
+            if name in names:
+                err(n, '%s is rebound at module level' % name, fname)
+    if hits != 1:
+        raise TranslateError('%s: expected exactly one `from .core import %s`, found %d' % (fname, name, hits))
 
 
 def sval(node, fname):
@@ -379,12 +406,22 @@ def emit(ctx):
     finit = find_func(ftree, 'FanoutCache.__init__', pname)
     hfi = match_template(T_FANOUT_INIT, finit, pname)
     fmt = strconst(hfi['__Hfmt__'], pname, 'shard directory format')
+    # `DBNAME` in fanout.py is core.DBNAME, and that is the file the Cache of a shard opens
+    imported_from_core(ftree, 'DBNAME', pname)
+    imported_from_core(ftree, 'DEFAULT_SETTINGS', pname)
+    connects = [n for n in ast.walk(find_func(tree, 'Cache._con', fname))
+                if isinstance(n, ast.Call) and dotted(n.func) == 'sqlite3.connect']
+    if len(connects) != 1 or ast.dump(connects[0]) != ast.dump(ast.parse(T_CON_CONNECT, mode='eval').body):
+        err(connects[0] if connects else find_func(tree, 'Cache._con', fname),
+            'Cache._con no longer opens exactly op.join(self._directory, DBNAME) (the file FanoutCache.__init__ tests for existence)', fname)
     hs = match_template(T_GETSTATE, find_func(ftree, 'FanoutCache.__getstate__', pname), pname)
     match_template(T_SETSTATE, find_func(ftree, 'FanoutCache.__setstate__', pname), pname)
     out.append('(* FanoutCache.__init__: shard directory = directory/<format % num>; size_limit = settings.pop(\'size_limit\', DEFAULT) / shards is\n'
-               '   passed to every shard on every open; the other given settings are passed through unchanged *)\n')
+               '   passed to a shard when the caller gave size_limit or when the shard\'s database file (DBNAME in the shard directory) does not\n'
+               '   exist yet; a shard that exists and is opened without the argument is given no size_limit and keeps the one stored in it;\n'
+               '   the other given settings are passed through unchanged (whole function matched by template) *)\n')
     out.append('Definition shard_dir_format : list Z := %s.   (* %r *)\n' % (cstr(fmt), fmt))
-    out.append('Definition fanout_size_limit_rule : fanout_size_limit := SLAlwaysPassed.\n')
+    out.append('Definition fanout_size_limit_rule : fanout_size_limit := SLWhenGivenOrNew.\n')
     out.append('Definition fanout_getstate : list handle_field := [%s].\n' % '; '.join(state_fields(hs['__Hstate__'], pname)))
     out.append('Definition fanout_init_params : list handle_field := [%s].\n' % '; '.join(init_params(finit, pname)))
     return {'Gen_Format.v': ''.join(out)}
